@@ -153,6 +153,56 @@ def f32_case(rep, r: dict) -> None:
                  f"{F.COORD[j]} = {a[i, j]!r} in float32, {b[i, j]!r} in float64 ({err[i, j] * K:.3g} float32 eps x scale)", r)
 
 
+def mixed_args_case(rep, r: dict) -> None:
+    """a float64 beam handed default-dtype (float32) tensors as *arguments* — `transformed_to(mu_x=torch.tensor(1e-3))` —
+    must give what it gives when handed the same numbers as float64 tensors: the beam's own float64 quantities may not be
+    routed through the argument's dtype"""
+    import numpy as np
+    import torch
+    import lattices as LT
+    P, En = np.array(r["particles"], dtype=float), r["energy"]
+    b = LT.particle_beam(P, En) if r["beam"] == "ParticleBeam" else LT.parameter_beam_from(P, En)
+    kw32 = {k: torch.tensor(v, dtype=torch.float32) for k, v in r["args"].items()}
+    kw64 = {k: v.to(torch.float64) for k, v in kw32.items()}        # the same numbers
+    try:
+        a, c = b.transformed_to(**kw32), b.transformed_to(**kw64)
+    except Exception as ex:
+        rep.count(f"mixed-args-rejected:{type(ex).__name__}")
+        return
+    va = a.particles if r["beam"] == "ParticleBeam" else torch.cat([a._mu.reshape(-1), a._cov.reshape(-1)])
+    vc = c.particles if r["beam"] == "ParticleBeam" else torch.cat([c._mu.reshape(-1), c._cov.reshape(-1)])
+    if va.dtype != torch.float64:
+        rep.fail("falsifier", f"C12|transformed_to|float32 argument {sorted(r['args'])}|{r['beam']}|dtype",
+                 f"{r['beam']}.transformed_to({sorted(r['args'])} as float32 tensors) on a float64 beam returns {va.dtype}", r)
+        return
+    va, vc = va.detach().numpy(), vc.detach().numpy()
+    sc = np.abs(vc).max(axis=0) if vc.ndim == 2 else np.abs(vc) + np.abs(vc).max() * 1e-6
+    d = np.abs(va - vc)
+    if not np.all(d <= 1e-13 * (sc + 1e-300)):
+        rep.fail("falsifier", f"C12|transformed_to|float32 argument {sorted(r['args'])}|{r['beam']}|value",
+                 f"{r['beam']}.transformed_to({sorted(r['args'])} as float32 tensors) on a float64 beam differs from the call with the same numbers "
+                 f"as float64 tensors by {float(np.nanmax(d / (sc + 1e-300)))!r} relative (float32 round-off of the beam's own quantities)", r)
+
+
+def mixed_args_probe(ctx, n: int) -> None:
+    import elements as E
+    import lattices as LT
+    rep, rng = ctx.report, ctx.rng
+    names = ["mu_x", "mu_y", "mu_px", "mu_py", "sigma_x", "sigma_y", "sigma_px", "sigma_py", "sigma_tau", "sigma_p"]
+    for i in range(n):
+        k = names[i % len(names)]
+        args = {k: float(E.pick(rng, 1e-3, 2.5e-4, 3.3e-5))}
+        if rng.random() < 0.4:
+            k2 = names[int(rng.integers(len(names)))]
+            args[k2] = float(E.pick(rng, 1e-3, 2.5e-4, 3.3e-5))
+        r = {"kind": "mixed_args", "args": args, "beam": ["ParticleBeam", "ParameterBeam"][i % 2], "energy": float(E.energy(rng)),
+             "particles": LT.gen_particles(rng, 16).tolist()}
+        rep.fals_cases += 1
+        rep.count("probe:mixed-args")
+        rep.case(("mixed_args", k, r["beam"]), None)
+        mixed_args_case(rep, r)
+
+
 def f32_probe(ctx, n: int) -> None:
     import bmadx_corr
     import elements as E
@@ -221,6 +271,7 @@ def run(ctx) -> None:
     if F is not None:
         map_accuracy_probe(ctx, ctx.n(60, 1500))
         f32_probe(ctx, ctx.n(30, 600))
+        mixed_args_probe(ctx, ctx.n(20, 400))
     if F is not None:
         F.run(ctx)
 
@@ -230,6 +281,8 @@ def corpus_case(ctx, r: dict) -> None:
         return map_accuracy_case(ctx.report, r)
     if r.get("kind") == "f32_vs_f64":
         return f32_case(ctx.report, r)
+    if r.get("kind") == "mixed_args":
+        return mixed_args_case(ctx.report, r)
     if F is not None and hasattr(F, "corpus_case"):
         F.corpus_case(ctx, r)
 
